@@ -187,6 +187,8 @@ func (o *outcome) pout(req areq) string {
 		switch {
 		case o.Status == 400:
 			return "PO400"
+		case o.Status == 404:
+			return "PO404"
 		case o.Status == 500:
 			return "PO500"
 		case !o.Wrote:
